@@ -68,10 +68,13 @@ struct Sk {
   virtual Sk* de(int variant, const uint8_t* p, size_t n) const = 0;
   virtual Sk* de_is(int variant, std::istream& is) const = 0;
   virtual bool has_stream_reader(int variant) const { (void)variant; return true; }
+  virtual bool variant_ok(int variant) const { (void)variant; return true; }   // false: this state has no image of that variant by documented design
   virtual size_t advertised_size(int variant) const { (void)variant; return static_cast<size_t>(-1); }
   virtual size_t max_size(int variant) const { (void)variant; return static_cast<size_t>(-1); }
-  virtual int entry_section_offset(int variant, const Bytes& img) const { (void)variant; (void)img; return -1; }  // >= 0: bytes from there are an unordered table of 'entry_width' bytes
-  virtual int entry_width(int variant) const { (void)variant; return 0; }
+  // the in-memory object whose state the image of this variant holds (theta-like: the compact form); control for restore tests
+  virtual Sk* image_source(int variant) const { (void)variant; return clone(); }
+  // images that store a hash table in unspecified order are compared after sorting that section (written from the layout, not via the library)
+  virtual Bytes canonical(int variant, const Bytes& img) const { (void)variant; return img; }
   virtual bool can_continue() const { return true; }   // restored object accepts feed()/merge()
 };
 
